@@ -2,7 +2,7 @@
 # usage: confirm_seed.sh <ID> <m> <demo-src> <dest-rel-path> <test-name> [extra cargo args]
 # Confirms in the scratch worktree /tmp/wt/<ID>: patch applies, suite passes with it, demo fails with it and passes without.
 ID=$1; M=$2; SRC=$3; DEST=$4; T=$5; shift 5; EXTRA="$*"
-WT=/tmp/wt/$ID; OUT=/tmp/wt/out/$ID/$M
+WT=/tmp/wt/$ID; OUT=${OUTDIR:-/tmp/wt/out/$ID/$M}
 cd $WT || exit 9
 git checkout -q -- . ; git clean -fdq -e target
 {
